@@ -245,6 +245,35 @@ impl Visit for Extra<'_, '_> {
     }
     n.visit_children_with(self);
   }
+  /// `Object.defineProperty(o, k, { …, get() { … }, … })`: the `get` member of the descriptor is a getter for
+  /// getter-return, reported at the member (whatever other members the descriptor has, in whatever order)
+  fn visit_call_expr(&mut self, n: &CallExpr) {
+    let is_define = matches!(&n.callee, Callee::Expr(e) if matches!(&**e, Expr::Member(m)
+      if matches!(&*m.obj, Expr::Ident(o) if &*o.sym == "Object") && matches!(&m.prop, MemberProp::Ident(p) if &*p.sym == "defineProperty")));
+    if is_define && n.args.len() == 3 {
+      if let Expr::Object(desc) = &*n.args[2].expr {
+        for p in &desc.props {
+          let PropOrSpread::Prop(p) = p else { continue };
+          match &**p {
+            Prop::Method(m) if matches!(&m.key, PropName::Ident(k) if &*k.sym == "get") && !m.function.is_generator => {
+              if let Some(b) = &m.function.body {
+                self.getters.push(json!({"at": p.start().as_byte_index(self.base), "bodyp": b.start().as_byte_index(self.base), "body": self.body(&b.stmts)}));
+              }
+            }
+            Prop::KeyValue(kv) if matches!(&kv.key, PropName::Ident(k) if &*k.sym == "get") => {
+              if let Expr::Fn(f) = &*kv.value {
+                if let (false, Some(b)) = (f.function.is_generator, &f.function.body) {
+                  self.getters.push(json!({"at": p.start().as_byte_index(self.base), "bodyp": b.start().as_byte_index(self.base), "body": self.body(&b.stmts)}));
+                }
+              }
+            }
+            _ => {}
+          }
+        }
+      }
+    }
+    n.visit_children_with(self);
+  }
   fn visit_switch_stmt(&mut self, n: &SwitchStmt) {
     for (i, c) in n.cases.iter().enumerate() {
       if i + 1 == n.cases.len() {
